@@ -276,12 +276,8 @@ func init() {
 			if ppi < 0 {
 				return nil, []string{fmt.Sprintf("key-complete: %s has no parameter %s", pf, s.Args["param"])}
 			}
-			direct := map[string]bool{}
-			for _, r := range eng.paramFieldReads(pf, ppi, map[string]bool{}, 0) {
-				if r.via == "" {
-					direct[r.field] = true
-				}
-			}
+			keyT := eng.typesPkgFor(modulePath + "/internal/cache").Scope().Lookup("SearchOptions").Type()
+			direct := eng.keyFlow(pf, ppi, keyT, 0)
 			var missing []string
 			for f := range needed {
 				if !direct[f] {
@@ -292,7 +288,7 @@ func init() {
 			r := &StaticResult{Name: fmt.Sprintf("key-complete %s / options", fnDisplayName(pf)), Kind: "key-complete",
 				Text: fmt.Sprintf("every option field read by %s (%s) is carried into the cache key by %s", fnDisplayName(fn), strings.Join(keys(needed), ", "), fnDisplayName(pf)), OK: len(missing) == 0}
 			if len(missing) > 0 {
-				r.Detail = "read by the engine but not part of the key: " + strings.Join(missing, ", ")
+				r.Detail = "read by the engine but not carried faithfully (on every path, unmodified) into the key: " + strings.Join(missing, ", ")
 			}
 			out = append(out, r)
 		}
@@ -354,4 +350,181 @@ func init() {
 		}
 		return []*StaticResult{r}, nil
 	}
+}
+
+// keyFlow: which fields of the options parameter flow faithfully — on every path, unmodified —
+// into a struct of the key type built by fn (directly or through a helper that builds it).
+// A field of the key struct that is stored more than once (a conditional override) or from
+// anything but the plain option field does not count.
+func (e *Engine) keyFlow(fn *ssa.Function, pidx int, keyType types.Type, depth int) map[string]bool {
+	out := map[string]bool{}
+	if fn.Blocks == nil || depth > 4 || pidx >= len(fn.Params) {
+		return out
+	}
+	p := fn.Params[pidx]
+	ost := structOf(p.Type())
+	kst := structOf(keyType)
+	if ost == nil || kst == nil {
+		return out
+	}
+	// cells holding the options
+	optCells := map[ssa.Value]bool{}
+	for _, b := range fn.Blocks {
+		for _, in := range b.Instrs {
+			if st, ok := in.(*ssa.Store); ok && st.Val == ssa.Value(p) {
+				optCells[st.Addr] = true
+			}
+		}
+	}
+	optField := func(v ssa.Value) (string, bool) {
+		switch x := v.(type) {
+		case *ssa.UnOp:
+			if x.Op == token.MUL {
+				if fa, ok := x.X.(*ssa.FieldAddr); ok && optCells[fa.X] {
+					return ost.Field(fa.Field).Name(), true
+				}
+			}
+		case *ssa.Field:
+			if x.X == ssa.Value(p) {
+				return ost.Field(x.Field).Name(), true
+			}
+			if u, ok := x.X.(*ssa.UnOp); ok && u.Op == token.MUL && optCells[u.X] {
+				return ost.Field(x.Field).Name(), true
+			}
+		}
+		return "", false
+	}
+	// per key-struct alloc: field index -> option field ("" = tainted)
+	type fmap map[int]string
+	allocMap := map[*ssa.Alloc]fmap{}
+	var mapOf func(a *ssa.Alloc, d int) fmap
+	mapOf = func(a *ssa.Alloc, d int) fmap {
+		if m, ok := allocMap[a]; ok {
+			return m
+		}
+		m := fmap{}
+		allocMap[a] = m
+		if d > 4 {
+			return m
+		}
+		whole := 0
+		for _, r := range *a.Referrers() {
+			switch r := r.(type) {
+			case *ssa.FieldAddr:
+				for _, r2 := range *r.Referrers() {
+					if st, ok := r2.(*ssa.Store); ok && st.Addr == ssa.Value(r) {
+						if of, ok := optField(st.Val); ok {
+							if prev, seen := m[r.Field]; seen && prev != of {
+								m[r.Field] = ""
+							} else if !seen {
+								m[r.Field] = of
+							} else {
+								m[r.Field] = "" // stored twice
+							}
+						} else {
+							m[r.Field] = ""
+						}
+					}
+				}
+			case *ssa.Store:
+				if r.Addr != ssa.Value(a) {
+					continue
+				}
+				whole++
+				var src fmap
+				switch v := r.Val.(type) {
+				case *ssa.UnOp:
+					if v.Op == token.MUL {
+						if a2, ok := v.X.(*ssa.Alloc); ok {
+							src = mapOf(a2, d+1)
+						}
+					}
+				case *ssa.Call:
+					if callee := v.Call.StaticCallee(); callee != nil && e.inRepo(callee) {
+						for ai, arg := range v.Call.Args {
+							isOpt := arg == ssa.Value(p)
+							if u, ok := arg.(*ssa.UnOp); ok && u.Op == token.MUL && optCells[u.X] {
+								isOpt = true
+							}
+							if isOpt {
+								sub := e.keyFlow(callee, ai, keyType, depth+1)
+								src = fmap{}
+								for i := 0; i < kst.NumFields(); i++ {
+									// the helper reports option-field names; map them back by equal names
+									for f := range sub {
+										if kst.Field(i).Name() == f {
+											src[i] = f
+										}
+									}
+								}
+							}
+						}
+					}
+				}
+				for i, f := range src {
+					if prev, seen := m[i]; seen && prev != f {
+						m[i] = ""
+					} else {
+						m[i] = f
+					}
+				}
+			}
+		}
+		if whole > 1 {
+			for i := range m {
+				m[i] = ""
+			}
+		}
+		return m
+	}
+	// key structs that reach a cache call or are returned
+	consider := func(v ssa.Value) {
+		if u, ok := v.(*ssa.UnOp); ok && u.Op == token.MUL {
+			if a, ok := u.X.(*ssa.Alloc); ok && types.Identical(a.Type().Underlying().(*types.Pointer).Elem(), keyType) {
+				for i, f := range mapOf(a, 0) {
+					_ = i
+					if f != "" {
+						out[f] = true
+					}
+				}
+			}
+		}
+	}
+	first := true
+	merge := func(v ssa.Value) {
+		before := out
+		out = map[string]bool{}
+		consider(v)
+		if first {
+			first = false
+			return
+		}
+		// every use must carry the field
+		for f := range out {
+			if !before[f] {
+				delete(out, f)
+			}
+		}
+	}
+	for _, b := range fn.Blocks {
+		for _, in := range b.Instrs {
+			switch in := in.(type) {
+			case *ssa.Return:
+				for _, r := range in.Results {
+					if types.Identical(r.Type(), keyType) {
+						merge(r)
+					}
+				}
+			case ssa.CallInstruction:
+				for _, a := range in.Common().Args {
+					if types.Identical(a.Type(), keyType) {
+						if callee := in.Common().StaticCallee(); callee != nil && strings.Contains(callee.String(), "SearchCache") {
+							merge(a)
+						}
+					}
+				}
+			}
+		}
+	}
+	return out
 }
